@@ -46,13 +46,55 @@ def to_model(enc):
     return enc
 
 
+def bound_out(x):
+    """One stored bound as the object it is: None, an int, {"bool": b} for a bool (never equal to an int,
+    so a bound stored as bool is neither in normal form nor what the model stores), repr otherwise."""
+    if x is None:
+        return None
+    if isinstance(x, bool):
+        return {"bool": x}
+    return int(x) if isinstance(x, int) else repr(x)
+
+
 def card_out(c):
-    """stored cardinality -> JSON ([min, max] with ints, bools mapped to ints)."""
+    """stored cardinality -> JSON ([min, max]; a bool bound stays visible as {"bool": b})."""
+    if c is None:
+        return None
+    if isinstance(c, tuple) and len(c) == 2:
+        return [bound_out(x) for x in c]
+    return {"weird": repr(c)}
+
+
+def card_value_out(c):
+    """What the two parse_cardinality helpers return, by value (bools as the ints they equal): the
+    result is not stored but handed to a constructor, whose format_cardinality decides what is stored."""
     if c is None:
         return None
     if isinstance(c, tuple) and len(c) == 2:
         return [None if x is None else (int(x) if isinstance(x, int) else repr(x)) for x in c]
     return {"weird": repr(c)}
+
+
+def unbool(enc):
+    """The same setting with every bool bound replaced by the int it equals."""
+    if isinstance(enc, bool):
+        return int(enc)
+    if isinstance(enc, dict) and ("t" in enc or "l" in enc):
+        key = "t" if "t" in enc else "l"
+        return {key: [int(x) if isinstance(x, bool) else x for x in enc[key]]}
+    return enc
+
+
+def has_bool(enc):
+    return json.dumps(unbool(enc)) != json.dumps(enc)      # (True == 1 in Python: compare the spelling)
+
+
+def model_objects(ans):
+    """The model's stored objects (answer field 'stored' / 'unbool') in the encoding of card_out."""
+    if not isinstance(ans, dict) or "ok" not in ans:
+        return "refused"
+    c = ans["ok"]
+    return None if c is None else [{"bool": x} if isinstance(x, bool) else x for x in c]
 
 
 def make_obj(kind, n, dtype="int", dup=False):
@@ -166,7 +208,7 @@ def is_normal(card):
         return False
     lo, hi = card
     for x in (lo, hi):
-        if x is not None and not (isinstance(x, int) and x >= 0):
+        if x is not None and not (isinstance(x, int) and not isinstance(x, bool) and x >= 0):
             return False
     if lo is None and hi is None:
         return False
@@ -254,7 +296,19 @@ def gen_user(rng, name, targets, ext_paths):
 
 DOC_SETTINGS = [None, 0, 1, 3, -1, {"t": [1, 2]}, {"t": [2, None]}, {"t": [None, 1]}, {"t": [0, 3]},
                 {"t": [2, 2]}, {"l": [1, 4]}, {"t": [3, 1]}, {"t": [-1, 2]}, {"t": [1, 2, 3]}, "a",
-                {"f": False, "fv": 2.5}, {"t": [None, None]}, {"t": [10, 11]}, {"t": [None, 10]}]
+                {"f": False, "fv": 2.5}, {"t": [None, None]}, {"t": [10, 11]}, {"t": [None, 10]},
+                # bool bounds (bool is an int): stored as the ints they equal, and then saved and loaded
+                True, {"t": [True, 3]}, {"l": [None, True]}, {"t": [False, 2]}, {"t": [True, True]},
+                {"t": [1, True]}, {"t": [True, None]}]
+
+# settings one of whose bounds is a bool, next to the int settings they equal (stream set_persist)
+BOOL_SETTINGS = [True, False] + \
+    [{"t": [True, n]} for n in (None, 0, 1, 2, 5, 10)] + [{"t": [n, True]} for n in (None, 0, 1, 2)] + \
+    [{"t": [False, n]} for n in (None, 0, 1, 3)] + [{"t": [n, False]} for n in (None, 0, 1, 3)] + \
+    [{"t": [True, True]}, {"l": [True, True]}, {"t": [False, False]}, {"t": [True, False]},
+     {"t": [False, True]}, {"l": [None, True]}, {"l": [True, 3]}, {"l": [False, 3]}, {"l": [True, None]},
+     {"t": [True, -1]}, {"t": [True, "2"]}, {"t": [True, {"f": False, "fv": 2.0}]}]
+INT_CONTROLS = [1, {"t": [1, 5]}, {"t": [None, 1]}, {"l": [0, 3]}, {"t": [1, 1]}, {"t": [2, None]}]
 
 
 def gen_steps(rng):
@@ -696,10 +750,13 @@ class C09(fw.Check):
         "fmt_normal", "set_refused_keeps", "set_accepted", "slot_always_stored", "fmt_domain",
         "fmt_single", "fmt_pair", "report_iff_outside", "report_cause", "never_enforced_add",
         "never_enforced_remove", "history_exact", "stored_fixpoint", "persist_text",
-        "persist_list", "persist_end_to_end", "card_keys_in_format"]]
+        "persist_list", "persist_end_to_end", "card_keys_in_format",
+        "fmt_obj_view", "set_obj_view", "bool_bound_exact", "slot_always_exact", "bool_bound_persisted",
+        "bool_bound_legacy_counterexample"]]
     trusted_base = [
         "Lean 4.33.0 kernel; axioms propext, Classical.choice, Quot.sound only (audited per theorem)",
-        "hand-written model lean/OdmlModel/Model/Card.lean, tied to /repo by this correspondence run",
+        "hand-written model lean/OdmlModel/Model/Card.lean and Model/CardObj.lean (the stored objects: exact "
+        "int vs bool), tied to /repo by this correspondence run",
         "harness/extract_tables.py (format._args tables regenerated into Lean on every run)",
         "Driver/*.lean JSON glue; harness/framework.py, harness/c09.py",
         "lxml / json / PyYAML text<->tree (exercised end to end, not modelled)",
@@ -722,6 +779,10 @@ class C09(fw.Check):
             "merge, clones, save+load through every entry point and reader option, validated as a whole, "
             "as a sub tree, as a single Property, by a kept Validation object and by an own single-rule "
             "Validation after every step. "
+            "Added in round 5: settings with bool bounds (True, (True, n), (n, True), [None, True], "
+            "(False, n), [True, True] ...) for the three kinds through attribute / method / constructor, "
+            "stored objects compared as objects (a bool is not an int), written and read back in XML / "
+            "JSON / YAML (string, file, lenient backend reader), next to the same setting spelled with ints. "
             "A case is non-trivial when the assignment is accepted with a non-None result, or "
             "the validation reports an issue, or a persisted cardinality is non-None; distinct = "
             "distinct canonical JSON of the case.")
@@ -745,6 +806,10 @@ class C09(fw.Check):
             for a in (None, 0, 2):
                 out.append({"t": [m, a]})
                 out.append({"t": [a, m]})
+        # more bool bounds (round 5): both bounds bools, a bool next to 1 / 5, lists
+        out += [{"t": [True, True]}, {"l": [True, True]}, {"t": [True, False]}, {"t": [False, True]},
+                {"t": [False, False]}, {"t": [True, 5]}, {"t": [True, 1]}, {"t": [1, True]}, {"l": [None, True]},
+                {"l": [True, 3]}, {"t": [False, 3]}, {"t": [3, True]}]
         nbig = 40 if tier == "quick" else 400
         for _ in range(nbig):
             a = rng.choice([None, rng.randrange(0, 10 ** rng.randrange(1, 30))])
@@ -869,6 +934,18 @@ class C09(fw.Check):
                 for fmt in ("JSON", "YAML"):
                     cases.append({"stream": "load_text", "kind": kind, "format": fmt, "v": v,
                                   "entry": rng.choice(["string", "file"])})
+        # bool bounds end to end: assigned (attribute / method / constructor), stored, written and read
+        # back in every format, next to the same setting spelled with ints
+        k = 0
+        for kind in KINDS:
+            for fmt in ("XML", "JSON", "YAML"):
+                for s in BOOL_SETTINGS + INT_CONTROLS:
+                    for via in ("attr", "ctor"):
+                        k += 1
+                        if via == "attr" and isinstance(s, dict) and "t" in s and k % 2:
+                            via = "method"
+                        cases.append({"stream": "set_persist", "kind": kind, "format": fmt, "v": s, "via": via,
+                                      "entry": ("string", "file", "backend")[k % 3]})
         ndoc = 500 if tier == "quick" else 6000
         for _ in range(ndoc):
             cases.append(gen_doc_case(rng))
@@ -982,6 +1059,8 @@ class C09(fw.Check):
             return {"stored": stored, "emitted": emitted, "loaded": card_out(getattr(obj2, ATTR[kind]))}
         if st == "load_text":
             return self.load_text(case)
+        if st == "set_persist":
+            return self.set_persist(case)
         if st == "doc":
             tmp = tempfile.mkdtemp(prefix="c09_")
             old_tmp = tempfile.tempdir
@@ -997,7 +1076,7 @@ class C09(fw.Check):
             except ImportError:
                 return {"skipped": "xmlparser.parse_cardinality not found"}
             try:
-                return {"parsed": card_out(parse_cardinality(case["s"]))}
+                return {"parsed": card_value_out(parse_cardinality(case["s"]))}
             except Exception as exc:
                 return {"raised": fw.exc_name(exc)}
         if st == "parse_list":
@@ -1006,7 +1085,7 @@ class C09(fw.Check):
             except ImportError:
                 return {"skipped": "dict_parser.parse_cardinality not found"}
             try:
-                return {"parsed": card_out(parse_cardinality([case["a"], case["b"]]))}
+                return {"parsed": card_value_out(parse_cardinality([case["a"], case["b"]]))}
             except Exception as exc:
                 return {"raised": fw.exc_name(exc)}
         raise ValueError(st)
@@ -1020,6 +1099,76 @@ class C09(fw.Check):
             getattr(obj, name)(value[0], value[1])
         else:
             setattr(obj, ATTR[kind], value)
+
+    def set_persist(self, case):
+        """One assignment (attribute, two argument method or constructor) to an object inside a Document,
+        then the Document is written and read back; a twin object gets the same setting with every bool
+        replaced by the int it equals."""
+        import odml
+        from odml.tools.odmlparser import ODMLWriter, ODMLReader
+        kind, fmt, via = case["kind"], case["format"], case["via"]
+        v = to_py(case["v"])
+        doc = odml.Document()
+        obj = None
+        try:
+            if via == "ctor":
+                if kind == "val":
+                    top = odml.Section(name="top", type="t", parent=doc)
+                    obj = odml.Property(name="p", values=[1, 2], parent=top, val_cardinality=v)
+                else:
+                    obj = odml.Section(name="top", type="t", parent=doc, **{ATTR[kind]: v})
+            else:
+                top = odml.Section(name="top", type="t", parent=doc)
+                obj = odml.Property(name="p", values=[1, 2], parent=top) if kind == "val" else top
+                self.assign(obj, kind, v, via)
+            outc = "ok"
+        except Exception as exc:
+            outc = fw.exc_name(exc)
+        res = {"outcome": outc, "before": None, "children_kept": True,
+               "after": None if (obj is None or via == "ctor" and outc != "ok") else card_out(getattr(obj, ATTR[kind]))}
+        twin = make_obj(kind, 2)
+        try:
+            setattr(twin, ATTR[kind], to_py(unbool(case["v"])))
+            res["twin"] = {"outcome": "ok"}
+        except Exception as exc:
+            res["twin"] = {"outcome": fw.exc_name(exc)}
+        res["twin"]["after"] = card_out(getattr(twin, ATTR[kind]))
+        if outc != "ok":
+            return res
+        tmp = None
+        phase = "save"
+        try:
+            if case["entry"] == "file":
+                tmp = tempfile.mkdtemp(prefix="c09_")
+                path = os.path.join(tmp, "out." + fmt.lower())
+                odml.save(doc, path, fmt)
+                with open(path, encoding="utf-8") as fh:
+                    text = fh.read()
+                phase = "load"
+                doc2 = odml.load(path, fmt, show_warnings=False)
+            else:
+                text = ODMLWriter(fmt).to_string(doc)
+                phase = "load"
+                doc2 = None
+                if case["entry"] == "backend":
+                    try:
+                        from odml.tools.xmlparser import XMLReader
+                        if fmt == "XML":
+                            doc2 = XMLReader(ignore_errors=True, show_warnings=False).from_string(text)
+                    except ImportError:
+                        pass
+                if doc2 is None:
+                    doc2 = ODMLReader(fmt, show_warnings=False).from_string(text)
+            res["emitted"] = self.emitted(kind, fmt, text)
+            obj2 = doc2.sections[0].properties[0] if kind == "val" else doc2.sections[0]
+            res["loaded"] = card_out(getattr(obj2, ATTR[kind]))
+        except Exception as exc:
+            res["raised"] = fw.exc_name(exc)
+            res["phase"] = phase
+        finally:
+            if tmp:
+                shutil.rmtree(tmp, True)
+        return res
 
     def load_text(self, case):
         """A complete file with a hand written cardinality entry, read by the public readers."""
@@ -1108,6 +1257,15 @@ class C09(fw.Check):
                 else:
                     return []
             return reqs
+        if st == "set_persist":
+            reqs = [dict(P, op="set", old=None, v=to_model(case["v"]))]
+            em = obs.get("emitted")
+            if isinstance(em, str) and em.isascii():
+                reqs.append(dict(P, op="parse_text", s=em))
+            elif isinstance(em, list) and len(em) == 2 and \
+                    all(x is None or isinstance(x, (bool, int, str)) for x in em):
+                reqs.append(dict(P, op="parse_list", a=em[0], b=em[1]))
+            return reqs
         if st == "load_text":
             if "raised" in obs:
                 return []
@@ -1156,6 +1314,8 @@ class C09(fw.Check):
                 a, b = answers[2 * i], answers[2 * i + 1]
                 if a["ok"] != (step["outcome"] == "ok") or a["card"] != step["after"]:
                     out.append("step %d: model %s, implementation %s / %s" % (i, a, step["outcome"], step["after"]))
+                for f in self.compare_objects(a, step):
+                    out.append("step %d: %s" % (i, f))
                 if (b is not None) != bool(step["issues"]):
                     out.append("step %d: model issue=%s, implementation issues=%s" % (i, b, step["issues"]))
         elif st == "load_text" and answers:
@@ -1184,6 +1344,26 @@ class C09(fw.Check):
                 out.append("model accepted=%s, implementation outcome=%s" % (a["ok"], obs["outcome"]))
             if a["card"] != obs["after"]:
                 out.append("model stores %s, implementation stores %s" % (a["card"], obs["after"]))
+            out += self.compare_objects(a, obs)
+        elif st == "set_persist" and answers:
+            a = answers[0]
+            if a["ok"] != (obs["outcome"] == "ok"):
+                out.append("model accepted=%s, implementation outcome=%s" % (a["ok"], obs["outcome"]))
+            if a["card"] != obs["after"]:
+                out.append("model stores %s, implementation stores %s" % (a["card"], obs["after"]))
+            out += self.compare_objects(a, obs)
+            if "unbool" in a:
+                want = model_objects(a["unbool"])
+                got = obs["twin"]["after"] if obs["twin"]["outcome"] == "ok" else "refused"
+                if want != got:
+                    out.append("the setting with ints: model stores %s, implementation %s" % (want, got))
+            if len(answers) > 1 and "loaded" in obs:
+                want = answers[1]
+                if want is not None and not want[0] and not want[1]:
+                    want = None
+                if want != obs["loaded"]:
+                    out.append("model parses emitted %r to %s, implementation loaded %s"
+                               % (obs["emitted"], answers[1], obs["loaded"]))
         elif st == "report":
             for step, a in zip(obs["trace"], answers):
                 if (a is not None) != bool(step["issues"]):
@@ -1199,6 +1379,16 @@ class C09(fw.Check):
                 out.append("model parses to %s, implementation to %s" % (answers[0], obs["parsed"]))
         return out
 
+    @staticmethod
+    def compare_objects(a, obs):
+        """The objects of an accepted assignment: the model stores None / exact ints (C09.bool_bound_exact)."""
+        if "stored" not in a or obs["outcome"] != "ok":
+            return []
+        want = model_objects(a["stored"])
+        if want != obs["after"]:
+            return ["model stores the objects %s, implementation %s" % (want, obs["after"])]
+        return []
+
     # -- oracle (property over the public API, independent of the model) ------
     def oracle(self, case, obs):
         if "harness_exception" in obs:
@@ -1210,6 +1400,20 @@ class C09(fw.Check):
             if obs.get("attached") is False:
                 out.append("an object with an accepted cardinality was not added to its parent "
                            "(the parent's own cardinality must not be enforced)")
+        elif st == "set_persist":
+            out += self.oracle_assignment(case["v"], obs)
+            if obs["outcome"] == "ok":
+                if "raised" in obs:
+                    out.append("%s %s of a document with the accepted %s cardinality %s failed: %s"
+                               % (case["format"], obs["phase"], case["kind"], obs["after"], obs["raised"]))
+                elif obs["loaded"] != obs["after"]:
+                    out.append("%s %s cardinality %s (assigned %s) loaded back as %s"
+                               % (case["format"], case["kind"], obs["after"], json.dumps(case["v"]), obs["loaded"]))
+                tw = obs["twin"]
+                if tw["outcome"] == "ok" and tw["after"] != obs["after"]:
+                    # True == 1 and False == 0: when both spellings are accepted they are the same cardinality
+                    out.append("setting %s stored as %s, the same setting with ints %s stored as %s"
+                               % (json.dumps(case["v"]), obs["after"], json.dumps(unbool(case["v"])), tw["after"]))
         elif st == "set_seq":
             for i, (item, step) in enumerate(zip(case["seq"], obs["steps"])):
                 for f in self.oracle_assignment(item["v"], step):
@@ -1458,6 +1662,9 @@ class C09(fw.Check):
             return ("set_seq:%s" % ("some" if acc else "none"), acc > 0)
         if st == "load_text":
             return ("load_text:" + case["format"], obs.get("loaded") is not None)
+        if st == "set_persist":
+            return ("set_persist:%s:%s" % (case["format"], "bool" if has_bool(case["v"]) else "int"),
+                    obs.get("loaded") is not None)
         if st == "doc":
             any_issue = any(m["issues"] for snap in obs.get("snaps", []) for m in snap["means"].values())
             refs = any(o.get("ref") for snap in obs.get("snaps", []) for o in snap["objs"])
